@@ -75,6 +75,7 @@ func cmdCheck(args []string) {
 }
 
 var outDir string
+var validatedTraces int
 
 func runCheck(repo, verif, prop, tier string, workers int, noReplay bool) int {
 	t0 := time.Now()
@@ -286,6 +287,62 @@ func runCheck(repo, verif, prop, tier string, workers int, noReplay bool) int {
 			fmt.Printf("CANDIDATE (not replayed) property=%s harness=%s kind=%s label=%s diag=%v %s\n  nondet=%v\n", prop, o.v.Harness, o.v.Kind, o.v.Label, o.v.Diag, o.v.Msg, o.v.Nondet)
 		}
 	}
+	// ---- translator validation: re-run sampled passing paths natively ----
+	validated, mismatches := 0, 0
+	if !noReplay && status == 0 && violations == 0 {
+		rdir := filepath.Join(outDir, "replays", prop, "samples")
+		os.MkdirAll(rdir, 0o755)
+		bins := map[string]string{}
+		for i, res := range results {
+			run := runs[i]
+			if run.Race {
+				continue
+			}
+			n := 0
+			for _, smp := range res.Samples {
+				if !smp.Complete || n >= 3 {
+					continue
+				}
+				bin, ok := bins[run.Pkg]
+				if !ok {
+					var err error
+					bin, err = buildReplayBinary(repo, verif, prog, run.Pkg, false)
+					if err != nil {
+						fmt.Println("ENGINE-ERROR building native replay binary:", err)
+						status = 3
+						bin = ""
+					}
+					bins[run.Pkg] = bin
+				}
+				if bin == "" {
+					continue
+				}
+				n++
+				v := interp.Violation{Harness: res.Harness, Kind: "sample", Label: "sampled-passing-path", Nondet: smp.Nondet, Schedule: smp.Schedule}
+				rp := writeReplay(rdir, prop, tier, v, run, knownIDs)
+				out, _ := runReplay(repo, bin, run.Pkg, rp)
+				switch {
+				case strings.Contains(out, "VERIF-REPLAY-PASSED"):
+					validated++
+				case strings.Contains(out, "VERIF-ASSERT-FAIL") || strings.Contains(out, "VERIF-PANIC") || strings.Contains(out, "VERIF-DEADLOCK"):
+					// known findings may legitimately fail on a sampled input? no: a sampled path passed symbolically
+					mismatches++
+					fmt.Printf("ENGINE-MISMATCH property=%s harness=%s: a path that passed symbolically fails natively with its own model (engine/model defect) replay=%s\n", prop, res.Harness, rp)
+					tail := out
+					if len(tail) > 1200 {
+						tail = tail[len(tail)-1200:]
+					}
+					fmt.Println(indent(tail))
+					problems = append(problems, "engine mismatch on sampled path")
+					status = 3
+				default:
+					// diverged (e.g. native select nondeterminism under a schedule): not counted
+					fmt.Printf("note: sampled path of %s did not replay to the end natively (not counted as validated)\n", res.Harness)
+				}
+			}
+		}
+	}
+	validatedTraces = validated
 	var kf []string
 	for id := range knownSeen {
 		kf = append(kf, id)
@@ -595,7 +652,7 @@ func writeEvidence(verif, prop, tier string, seed int, spec PropSpec, runs []HRu
 	cov := map[string]any{
 		"states":                        paths,
 		"transitions":                   branches + paths,
-		"traces_validated_against_impl": 0,
+		"traces_validated_against_impl": validatedTraces,
 		"samples":                       samples,
 		"evaluations":                   paths,
 		"distinct_nontrivial":           distinct,
